@@ -21,9 +21,9 @@ from ..common import Verdict, run_tlc, tlc_must_pass, validate_traces_parallel, 
 from ..gen import write_job, generate
 
 DEFS = [
-    'enum Color { RED GREEN }',
+    'enum Color { RED GREEN }\nscalar Stamp',                       # ends in a NAME
     'input Filter { name: String color: Color = GREEN limit: Int! = 10 tags: [String!] = ["a"] sub: SubFilter = {deep: 2} req: Int! }\ninput SubFilter { deep: Int = 1 }',
-    '"A node" interface Node { id: ID! }',
+    '"A node" interface Node { id: ID! }\nunion Thing = Item',         # ends in a NAME
     'type Item implements Node { id: ID! "the name" name: String color: Color related(first: Int = 5, flt: Filter): [Item!]! }',
     'type Query { item(id: ID!): Item items(filter: Filter, colors: [Color!] = [RED]): [Item!]! node(id: ID!): Node }',
 ]
@@ -41,6 +41,9 @@ CONSTANTS NDefs = 5
 INVARIANT {inv}
 CHECK_DEADLOCK FALSE
 """
+
+
+ENDINGS = ["blank_line", "last_token", "comment"]
 
 
 class Handler(http.server.BaseHTTPRequestHandler):
@@ -155,21 +158,26 @@ def run(tier, work, replay=None):
         def gen_dir(t):
             i, part = t
             files = {}
+            ending = ENDINGS[i % 3]
             for d, f in zip(DEFS, part):
                 files[f] = files.get(f, "") + d + "\n\n"
+            if ending == "last_token":
+                files = {f: t.rstrip("\n") for f, t in files.items()}
+            elif ending == "comment":
+                files = {f: t.rstrip("\n") + "\n# end of " + f.split("/")[-1] for f, t in files.items()}
             job = write_job(work.dir / f"dir_{i}", schema=files, queries=QUERIES, package="gclient", options={"async_client": False})
             rr = generate(job)
             res = package_parts(job) if rr["exc_class"] is None else None
             import shutil
             shutil.rmtree(job, ignore_errors=True)
-            return ("directory", part, rr, res)
+            return ("directory", part, rr, res, ending)
         outs = pmap(gen_dir, list(enumerate(partitions)))
         # introspection source (served by graphql-core on the loop-back interface)
         job = write_job(work.dir / "introspect", schema=None, queries=QUERIES, package="gclient", remote_schema_url=base + "/ok",
                         options={"async_client": False, "remote_schema_headers": {"Authorization": "$VERIF_TOKEN", "X-Plain": "v"},
                                  "remote_schema_verify_ssl": False})
         rr = generate(job, env={"VERIF_TOKEN": "s3cret", "VERIF_PROBE_HTTPX": "1"})
-        outs.append(("introspection", ["-"] * 5, rr, package_parts(job) if rr["exc_class"] is None else None))
+        outs.append(("introspection", ["-"] * 5, rr, package_parts(job) if rr["exc_class"] is None else None, "blank_line"))
         posts = [e for e in rr.get("events", []) if isinstance(e, dict) and e.get("e") == "httpx.post"]
         got = [s for s in Handler.seen if s["path"] == "/ok"]
         if not posts or posts[0]["headers"].get("Authorization") != "s3cret" or posts[0]["headers"].get("X-Plain") != "v":
@@ -185,8 +193,8 @@ def run(tier, work, replay=None):
         if not posts2 or posts2[0]["verify"] is not True:
             v.violation({"part": "request", "what": "verify_default"}, "verify_flag_not_passed", {"posts": posts2})
         traces, owners = [], []
-        for src, part, rr_, res in outs:
-            feats = {"source": src, "partition": part if src == "directory" else None}
+        for src, part, rr_, res, ending in outs:
+            feats = {"source": src, "partition": part if src == "directory" else None, "ending": ending}
             if res is None:
                 v.violation(feats, f"gen_crash:{rr_['exc_class']}", {"message": rr_["exc_msg"]})
                 continue
@@ -198,7 +206,7 @@ def run(tier, work, replay=None):
                     diff = sorted(k for k in set(a or {}) | set(b or {}) if (a or {}).get(k) != (b or {}).get(k))[:6]
                     v.violation(dict(feats, part=pname), f"client_differs:{pname}", {"differs_on": diff, "got": {k: (a or {}).get(k) for k in diff[:3]},
                                                                                      "reference": {k: (b or {}).get(k) for k in diff[:3]}})
-            traces.append([{"e": "case", "src": src, "partition": part if src == "directory" else ["z.gql"] * 5}, {"e": "generated", "same": same}])
+            traces.append([{"e": "case", "src": src, "partition": part if src == "directory" else ["z.gql"] * 5, "ending": ending}, {"e": "generated", "same": same}])
             owners.append(feats)
         # ---- the introspection response table
         def probe(rsp):
@@ -233,7 +241,7 @@ def run(tier, work, replay=None):
         v.violation(dict(owners[t], part="trace"), "trace_rejected:" + (",".join(why) or "generated"), {"trace": traces[t]})
     v.cov["evaluations"] = n_eval
     v.cov["traces_validated_against_impl"] = len(traces) - len(bad)
-    v.cov["distinct_nontrivial"] = len([1 for s_, p_, _, _ in outs if s_ != "directory" or len(set(p_)) >= 2])
+    v.cov["distinct_nontrivial"] = len([1 for s_, p_, _, _, _ in outs if s_ != "directory" or len(set(p_)) >= 2])
     v.cov["rule"] = ("sources = every assignment of 5 definitions to 3 file slots (a/x.graphql, b/sub/y.graphqls, z.gql) enumerated by TLC "
                      "(quick: a seeded fifth), plus introspection through a loop-back endpoint; introspection responses = url x status x body "
                      "class table from SchemaSource!Responses; non-trivial = a split over >= 2 files, or introspection")
